@@ -12,6 +12,8 @@ ops  : `small:0|1` `n:<f>` `fc:<f>` `hbs:<f>` `hms:<f>` `area:<name, ~ for space
        `db:<f>` `dba:<f,…>` `lin:<f>` `lina:<f,…>` `wdb:<f>` `wdba:<f,…>` `wl:<f>` `wla:<f,…>`
        ps7 queries carry the wall count: `wdb:<nw>:<f>` `wdba:<nw>:<f,…>` `wl:<nw>:<f>` `db:<nw>:<f>` `dba:<nw>:<f,…>` `dbw:<nw,…>:<f,…>` `lin:<nw>:<f>`
        `g:<f>` `ga:<f,…>` (antenna)
+       non-setter public calls: `shadow:0|1` (plain attribute write) · `plot:<f,…>` / `plotx:<f,…>` (axes raise)
+       → `ok` / `error:…` · `nop:<name>` (repr, copies, getters, helpers … → `ok`) · `flags` → `s<0|1>h<0|1>`
 -/
 
 instance : NatCast Float := ⟨Float.ofNat⟩
@@ -45,6 +47,13 @@ def genQuery (s : GenState Float) : List String → Option String
 def bool? : String → Option Bool
   | "0" => some false | "1" => some true | _ => none
 
+def showSet : Option PyErr → String
+  | none => "ok"
+  | some e => "error:" ++ toString e
+
+def showFlags (small shadow : Bool) : String :=
+  "s" ++ (if small then "1" else "0") ++ "h" ++ (if shadow then "1" else "0")
+
 /-- `setters = true` for PathLossFreeSpace (n / fc properties exist) -/
 def runGen (setters : Bool) : GenState Float → List String → List String → String
   | _, [], acc => " ".intercalate acc.reverse
@@ -52,6 +61,14 @@ def runGen (setters : Bool) : GenState Float → List String → List String →
     match splitOp t with
     | ["small", b] => match bool? b with
         | some b => runGen setters (fsStep s (.setSmall b)) ts ("ok" :: acc) | none => "bad-op"
+    | ["shadow", b] => match bool? b with
+        | some b => runGen setters (fsStep s (.setShadow b)) ts ("ok" :: acc) | none => "bad-op"
+    | ["flags"] => runGen setters s ts (showFlags s.small s.shadow :: acc)
+    | ["nop", _] => runGen setters s ts ("ok" :: acc)
+    | ["plot", x] => match pfl x with
+        | some d => let r := s.plot d false; runGen setters r.1 ts (showSet r.2 :: acc) | none => "bad-op"
+    | ["plotx", x] => match pfl x with
+        | some d => let r := s.plot d true; runGen setters r.1 ts (showSet r.2 :: acc) | none => "bad-op"
     | ["n", x] => match setters, pf x with
         | true, some v => runGen setters (fsStep s (.setN v)) ts ("ok" :: acc) | _, _ => "bad-op"
     | ["fc", x] => match setters, pf x with
@@ -65,6 +82,14 @@ def runPs7 : Ps7State Float → List String → List String → String
     match splitOp t with
     | ["small", b] => match bool? b with
         | some b => runPs7 (ps7Step s (.setSmall b)) ts ("ok" :: acc) | none => "bad-op"
+    | ["shadow", b] => match bool? b with
+        | some b => runPs7 (ps7Step s (.setShadow b)) ts ("ok" :: acc) | none => "bad-op"
+    | ["flags"] => runPs7 s ts (showFlags s.small s.shadow :: acc)
+    | ["nop", _] => runPs7 s ts ("ok" :: acc)
+    | ["plot", x] => match pfl x with
+        | some d => let r := s.plot d false; runPs7 r.1 ts (showSet r.2 :: acc) | none => "bad-op"
+    | ["plotx", x] => match pfl x with
+        | some d => let r := s.plot d true; runPs7 r.1 ts (showSet r.2 :: acc) | none => "bad-op"
     | ["fc", x] => match pf x with
         | some v => runPs7 (ps7Step s (.setFc v)) ts ("ok" :: acc) | none => "bad-op"
     | ["db", w, x] => match w.toInt?, pf x with
@@ -83,16 +108,19 @@ def runPs7 : Ps7State Float → List String → List String → String
         | some w, some d => runPs7 s ts (showRA (s.dbArrayWalls w d) :: acc) | _, _ => "bad-op"
     | _ => "bad-op"
 
-def showSet : Option PyErr → String
-  | none => "ok"
-  | some e => "error:" ++ toString e
-
 def runOh : OhState Float → List String → List String → String
   | _, [], acc => " ".intercalate acc.reverse
   | s, t :: ts, acc =>
     let set (o : OhOp Float) := let r := ohStep s o; runOh r.1 ts (showSet r.2 :: acc)
     match splitOp t with
     | ["small", b] => match bool? b with | some b => set (.setSmall b) | none => "bad-op"
+    | ["shadow", b] => match bool? b with | some b => set (.setShadow b) | none => "bad-op"
+    | ["flags"] => runOh s ts (showFlags s.small s.shadow :: acc)
+    | ["nop", _] => runOh s ts ("ok" :: acc)
+    | ["plot", x] => match pfl x with
+        | some d => let r := s.plot d false; runOh r.1 ts (showSet r.2 :: acc) | none => "bad-op"
+    | ["plotx", x] => match pfl x with
+        | some d => let r := s.plot d true; runOh r.1 ts (showSet r.2 :: acc) | none => "bad-op"
     | ["fc", x] => match pf x with | some v => set (.setFc v) | none => "bad-op"
     | ["hbs", x] => match pf x with | some v => set (.setHbs v) | none => "bad-op"
     | ["hms", x] => match pf x with | some v => set (.setHms v) | none => "bad-op"
